@@ -12,7 +12,8 @@ Record built (s : st) : Prop := {
   b_M : s_M s = class_matrix (s_n s) (s_m s);
   b_chunks : s_chunks s = ffd (map t_len (s_tracts s)) (s_target s);
   b_stripes : Forall (fun stripe => length stripe = s_n s /\
-                                    Forall (fun c => c = [] \/ exists pc, In pc (s_chunks s) /\ c = pc_exts pc) stripe)
+                                    Forall (fun c => check_tract_spec c (s_target s) = true /\
+                                                     (c = [] \/ exists pc, In pc (s_chunks s) /\ c = pc_exts pc)) stripe)
                      (s_stripes s)
 }.
 
@@ -52,8 +53,11 @@ Proof.
   assert (Hk : (length ls / s_n s) * s_n s <= length exts).
   { unfold exts. rewrite map_length. rewrite Nat.mul_comm. apply Nat.mul_div_le. lia. }
   pose proof (chunks_of_full _ (length ls / s_n s) (s_n s) exts (length ls / s_n s) Hn Hk) as F.
-  eapply Forall_impl; [|exact F]. intros stripe [Hl Hi]. split; [exact Hl|].
-  apply Forall_forall. intros c Hc. specialize (Hi c Hc). unfold exts in Hi. apply in_map_iff in Hi.
+  rewrite Forall_forall in F. apply Forall_forall. intros stripe Hs. apply filter_In in Hs.
+  destruct Hs as [Hs Hchk]. destruct (F stripe Hs) as [Hl Hi]. split; [exact Hl|].
+  rewrite forallb_forall in Hchk.
+  apply Forall_forall. intros c Hc. split; [apply Hchk; exact Hc|].
+  specialize (Hi c Hc). unfold exts in Hi. apply in_map_iff in Hi.
   destruct Hi as [l [E _]]. unfold find_chunk in E.
   destruct (find (fun c0 => Nat.eqb (pc_leader c0) l) (s_chunks s)) as [pc|] eqn:Ef.
   - right. exists pc. split; [apply find_some in Ef; destruct Ef; assumption | symmetry; exact E].
@@ -149,23 +153,19 @@ Qed.
 (* ---------- the invariant gives wf_read ---------- *)
 Theorem built_wf_read : forall s t k j e,
   built s ->
-  Forall (fun tr => (padded (t_len tr) <= s_target s)%N) (s_tracts s) ->
   find_in_stripes t (s_stripes s) 0 = Some (k, j, e) ->
   length (nth k (s_hosts s) []) = s_n s + s_m s ->
   wf_read s k j e (nth t (s_tracts s) dummy_tract).
 Proof.
-  intros s t k j e B Hpad Hf Hh. destruct B as [B1 B2 B3 B4].
+  intros s t k j e B Hf Hh. destruct B as [B1 B2 B3 B4].
   destruct (find_in_stripes_spec _ _ _ _ _ _ Hf) as [k' [Ek [Hk Hc]]]. simpl in Ek. subst k'.
   destruct (find_in_chunks_spec _ _ _ _ _ Hc) as [j' [Ej [Hj He]]]. simpl in Ej. subst j'.
   destruct (find_ext_spec _ _ _ He) as [Hin Htr].
   rewrite Forall_forall in B4.
   destruct (B4 (nth k (s_stripes s) []) (nth_In _ _ Hk)) as [Hlen Hchs].
   rewrite Forall_forall in Hchs.
-  destruct (Hchs (nth j (nth k (s_stripes s) []) []) (nth_In _ _ Hj)) as [Hnil | [pc [Hpc Epc]]].
+  destruct (Hchs (nth j (nth k (s_stripes s) []) []) (nth_In _ _ Hj)) as [Hspec [Hnil | [pc [Hpc Epc]]]].
   { rewrite Hnil in Hin. contradiction. }
-  assert (Hlens : Forall (fun l => (padded l <= s_target s)%N) (map t_len (s_tracts s))).
-  { apply Forall_forall. intros l Hl. apply in_map_iff in Hl. destruct Hl as [tr [<- Htr']].
-    rewrite Forall_forall in Hpad. apply Hpad. exact Htr'. }
   rewrite B3 in Hpc.
   constructor.
   - exact B1.
@@ -173,7 +173,7 @@ Proof.
   - exact Hlen.
   - rewrite <- Hlen. exact Hj.
   - exact Hin.
-  - rewrite Epc. pose proof (pack_layout_accepted _ _ Hlens) as A. rewrite Forall_forall in A. apply (A pc Hpc).
+  - exact Hspec.
   - unfold tract_of. rewrite Htr. reflexivity.
   - pose proof (ffd_ext_ok (map t_len (s_tracts s)) (s_target s)) as X. rewrite Forall_forall in X.
     specialize (X pc Hpc). rewrite Forall_forall in X. rewrite Epc in Hin. specialize (X e Hin).
@@ -216,12 +216,23 @@ Proof.
   right. apply Nat.eqb_eq in E1. apply Nat.ltb_lt in E2. repeat split; assumption.
 Qed.
 
+Lemma step_op40 : forall s r,
+  fst (step s (40%Z :: r)) = s \/ exists k h, fst (step s (40%Z :: r)) = st_set_hosts s k h.
+Proof.
+  intros s r. destruct r as [|k rest]; [left; reflexivity|]. cbn [step].
+  destruct (take_list rest) as [[badp rest']|]; [|left; reflexivity].
+  destruct (take_list rest') as [[newids [|x y]]|]; try (left; reflexivity).
+  cbv zeta. destruct (reconstruct_plan _ _ _ _ _) as [p|]; [|left; reflexivity].
+  right. eexists. eexists. reflexivity.
+Qed.
+
 Theorem built_preserved_by_ops : forall s op,
   built s ->
-  (exists r, op = 10%Z :: r) \/ (exists r, op = 11%Z :: r) \/ (exists r, op = 15%Z :: r) ->
+  (exists r, op = 10%Z :: r) \/ (exists r, op = 11%Z :: r) \/ (exists r, op = 15%Z :: r) \/ (exists r, op = 40%Z :: r) ->
   built (fst (step s op)).
 Proof.
-  intros s op B [[r ->] | [[r ->] | [r ->]]].
+  intros s op B [[r ->] | [[r ->] | [[r ->] | [r ->]]]]; [| | |
+    destruct (step_op40 s r) as [-> | [k [h ->]]]; [exact B | apply built_set_hosts; exact B]].
   - destruct r as [|n [|m [|tg [|sl [|nt rest]]]]]; try exact B.
     destruct (step_op10 s n m tg sl nt rest) as [-> | [Hc ->]]; [exact B | apply built_pack; exact Hc].
   - destruct r as [|cnt leaders]; [exact B|].
